@@ -461,6 +461,7 @@ def correspond(ctx):
     stream_labels(ctx, programs)
     stream_query_parse(ctx, programs)
     stream_smarts(ctx, programs)
+    stream_skeleton(ctx, programs)
     stream_mapping(ctx, programs)
     ctx.cov['programs'] = len(programs)
     ctx.cov['program_names'] = sorted(programs)
@@ -592,6 +593,19 @@ def stream_eq(ctx, programs):
                 bits.append('E')
         lines.append(line('eq', qi + [len(envs)] + env_ints))
         reals.append((text, qi, ''.join(bits), envs))
+        # copies denote the same query: copy(full=True) keeps everything, copy() drops only the stereo / masked marks
+        try:
+            cf, cp = q.copy(full=True), q.copy()
+            want = list(qi)
+            want[-1] = 0
+            if qi[0] != 3:
+                want[-2] = -1
+            bits_c = ''.join('1' if (cp == a) is True else '0' for k, a, _ in envs[:200])
+            if enc_qatom(cf) != qi or enc_qatom(cp) != want or bits_c != ''.join(bits)[:200]:
+                ctx.fail('C08/query-copy-differs', f'copy of {text} is a different query: full {enc_qatom(cf)} plain {enc_qatom(cp)} original {qi}',
+                         {'kind': 'copy', 'query': text})
+        except Exception as e:
+            ctx.fail('C08/query-copy-raises/' + type(e).__name__, f'copy of {text}: {e}', {'kind': 'copy', 'query': text})
     resp = core.run_driver('C08', lines)
     for (text, qi, real, envs), model in zip(reals, resp):
         constrained = any(qi[i] for i in range(len(qi)))
@@ -656,6 +670,13 @@ def stream_bonds(ctx, programs):
             lines.append(line('qb', [mode, tri(ir), -1] + L(os)))
             reals.append(real)
             keys.append(('qb', mode, tuple(os), ir))
+    # a set of orders is accepted like a list; copies keep the orders (and the marks when full)
+    for q in qbs:
+        qs_ = QueryBond(set(q.order), q.in_ring)
+        cf, cp = q.copy(full=True), q.copy()
+        if enc_qbond(qs_) != enc_qbond(q) or enc_qbond(cf) != enc_qbond(q) or cp.order != q.order or cp.in_ring is not None:
+            ctx.fail('C08/query-bond-copy-differs', f'QueryBond({q.order}, {q.in_ring}): set/copy give {enc_qbond(qs_)} {enc_qbond(cf)} {enc_qbond(cp)}',
+                     {'kind': 'bond', 'line': str(enc_qbond(q))})
     # QueryBond.from_bond with every flag combination on every (order, ring, stereo) bond
     for o, r, b in bonds:
         for st in (None, False, True):
@@ -836,6 +857,74 @@ def stream_smarts(ctx, programs):
     if kind_diff:
         ctx.dist('sm:inner-kind-differs', kind_diff)
 
+
+
+def skeleton_case(text):
+    """SMARTS text that is also a (Kekule, bracket-free) SMILES: the query graph must have the molecule's atoms and bonds, and the
+    query must match the molecule it was written from with the identity mapping. Returns None or a description."""
+    from chython import smarts, smiles
+    q = smarts(text)
+    m = smiles(text)
+    if list(q._atoms) != list(m._atoms):
+        return f'atom numbers {list(q._atoms)[:8]} vs {list(m._atoms)[:8]}'
+    for n, a in m._atoms.items():
+        qa = q._atoms[n]
+        if getattr(qa, 'atomic_number', None) != a.atomic_number or enc_qatom(qa)[4:] != [0, 0, 0, 0, 0, 0, 0, -1, 0]:
+            return f'atom {n}: query {qa!r} for {a.atomic_symbol}'
+    qb = {frozenset((n, k)): b.order for n, k, b in q.bonds()}
+    mb = {frozenset((n, k)): (b.order,) for n, k, b in m.bonds()}
+    if qb != mb:
+        d = [(sorted(k), qb.get(k), mb.get(k)) for k in set(qb) | set(mb) if qb.get(k) != mb.get(k)]
+        return f'bonds differ: {d[:3]}'
+    if any(b.in_ring is not None or b.stereo is not None for _, _, b in q.bonds()):
+        return 'unexpected ring / stereo mark on a query bond'
+    if len(m) <= 18:
+        ident = {n: n for n in m._atoms}
+        cnt = 0
+        for mp in q.get_mapping(m, automorphism_filter=False, _cython=False):
+            cnt += 1
+            if mp == ident:
+                break
+            if cnt > 20000:
+                return None
+        else:
+            return 'the query does not match its own molecule with the identity mapping'
+    return None
+
+
+def stream_skeleton(ctx, programs):
+    """full SMARTS syntax (organic-subset atoms, branches, ring closures, `%nn`) — outside the Lean model — validated relationally:
+    the same text read as SMILES gives the atoms and bonds the query graph must have."""
+    import random as _random
+    programs.add('chython.smarts (branches / ring closures, vs chython.smiles)')
+    _random.seed(ctx.rng.getrandbits(32))
+    texts = []
+    for name, m in molecules(ctx):
+        if len(m) > 45 or len(m) < 2:
+            continue
+        try:
+            k = m.copy()
+            k.kekule()
+            cand = [format(k, '!s')] + [format(k, 'r!s') for _ in range(1 if ctx.quick else 3)]
+        except Exception:
+            continue
+        for t in cand:
+            if '[' in t or ' ' in t or any(c.islower() and c not in 'lr' for c in t):
+                continue
+            texts.append(t)
+    texts = list(dict.fromkeys(texts))
+    if ctx.quick:
+        texts = texts[:250]
+    for t in texts:
+        try:
+            bad = skeleton_case(t)
+        except Exception as e:
+            bad = f'{type(e).__name__}: {e}'
+        ctx.count(('skeleton', t), nontrivial='(' in t or any(c.isdigit() for c in t))
+        ctx.dist('skeleton:' + ('branch+ring' if '(' in t and any(c.isdigit() for c in t) else 'branch' if '(' in t
+                                else 'ring' if any(c.isdigit() for c in t) else 'chain'))
+        if bad:
+            ctx.fail('C08/smarts-skeleton-differs-from-smiles', f'{t}: {bad}', {'kind': 'skeleton', 'smarts': t})
 
 def mapping_patterns(ctx):
     rng = ctx.rng
@@ -1718,6 +1807,21 @@ def probe(inp):
             if got != exp:
                 return True, f'atom {n}: labels (neighbors, heteroatoms, hybridization, in_ring) {got}, independent computation {exp}'
         return False, 'labels agree with the independent computation'
+    if kind == 'skeleton':
+        try:
+            bad = skeleton_case(inp['smarts'])
+        except Exception as e:
+            bad = f'{type(e).__name__}: {e}'
+        return bool(bad), bad or f'{inp["smarts"]}: query graph = molecule graph, identity mapping found'
+    if kind == 'copy':
+        from chython import smarts
+        t = inp['query']
+        if not t.startswith('['):
+            return False, 'API-built query: re-run the check'
+        q = next(iter(smarts(t)._atoms.values()))
+        cf = q.copy(full=True)
+        ok = enc_qatom(cf) == enc_qatom(q)
+        return not ok, f'copy(full=True) of {t}: {enc_qatom(cf)} vs {enc_qatom(q)}'
     if kind == 'eq':
         return False, 'model-vs-code disagreement on a synthetic environment; re-run the check (search decides)'
     if kind == 'bond':
